@@ -36,7 +36,7 @@ def gen(rng, tier, run):
     nds = rng.choice([1, 1, 2, 3])
     alpha = 10 ** rng.uniform(-4, -0.02) if rng.random() < 0.8 else rng.choice([0.01, 0.05, 0.5])
     ndf = None if rng.random() < 0.5 else rng.choice([1, 2, 5, 30, 1000, rng.randrange(1, 10000)])
-    spread = rng.choice([0.5, 1.0, 2.0, 3.0, 6.0])
+    spread = rng.choice([0.5, 1.0, 2.0, 3.0, 6.0, 6.0, 12.0, 40.0])
     special = rng.random() < 0.35
 
     tiny = rng.random() < 0.1       # strictly positive errors whose squares underflow
@@ -122,12 +122,23 @@ def mkds(d, shape, scale=1.0):
     return Dataset(np.int64(v[0]), np.int64(e[0])) if asint else Dataset(np.float64(v[0]), np.float64(e[0]))
 
 
+_FLAGS = {}
+
+
 def evaluate(ref, dss, alpha, ndf):
     import numpy as np
     from valjean.gavroche.stat_tests.student import TestStudent
     test = TestStudent(ref, *dss, name='t', alpha=alpha, ndf=ndf)
     res = test.evaluate()
     tpv = res.test_pvalue()
+    # the same test object evaluated once more gives the same result
+    res2 = test.evaluate()
+    same_again = (bool(res2) == bool(res) and len(res2.tstud) == len(res.tstud)
+                  and all(np.array_equal(np.asarray(a, dtype=float), np.asarray(b, dtype=float), equal_nan=True)
+                          for a, b in zip(res.tstud, res2.tstud))
+                  and all(np.array_equal(np.asarray(a, dtype=float), np.asarray(b, dtype=float), equal_nan=True)
+                          for a, b in zip(res.pvalue, res2.pvalue)))
+    _FLAGS['same_object_again'] = _FLAGS.get('same_object_again', True) and same_again
     return {'t': [[bits(x) for x in np.asarray(t, dtype=float).flatten()] for t in res.tstud],
             'oracles': [[bool(x) for x in np.asarray(o).flatten()] for o in
                         (np.asarray(res.oracles()).reshape(len(dss), -1) if np.asarray(res.oracles()).size else [])],
@@ -148,6 +159,7 @@ def run_impl(case, run):
     dss = [mkds(d, shape) for d in case['dss']]
     snap = [(np.asarray(d.value).tobytes(), np.asarray(d.error).tobytes()) for d in [ref] + dss]
     out = {}
+    _FLAGS.clear()
     try:
         out.update(evaluate(ref, dss, alpha, ndf))
         out['again'] = evaluate(ref, dss, alpha, ndf) == {k: out[k] for k in ('t', 'oracles', 'verdict', 'p', 'pdec', 'thr')}
@@ -173,6 +185,26 @@ def run_impl(case, run):
         from scipy.stats import norm, t as tlaw
         law = norm if ndf is None else tlaw(ndf)
         thr = unbits(out['thr'])
+        # the p-values are the two-sided tails of the statistic (independent recomputation)
+        bad_p = []
+        for di, (ts, ps) in enumerate(zip(out['t'], out['p'])):
+            for bi, (tb, pb) in enumerate(zip(ts, ps)):
+                tval, pval = unbits(tb), unbits(pb)
+                if math.isfinite(tval):
+                    want = 2.0 * float(law.sf(abs(tval)))
+                    if not (pval == want or abs(pval - want) <= 1e-9 * want):
+                        bad_p.append([di, bi, tval, pval, want])
+        out['bad_p'] = bad_p[:3]
+        # datasets edited in place after a first comparison are compared as what they are now
+        if shape and dss and np.asarray(dss[0].error).dtype.kind == 'f' and np.asarray(ref.value).dtype.kind == 'f':
+            dss[0].error *= 2.0
+            ref.value += 1.0
+            fresh_ref = mkds(case['ref'], shape)
+            fresh_ref.value += 1.0
+            fresh = [mkds(d, shape) for d in case['dss']]
+            fresh[0].error *= 2.0
+            out['edited_same'] = evaluate(ref, dss, alpha, ndf) == evaluate(fresh_ref, fresh, alpha, ndf)
+        out['same_object_again'] = _FLAGS.get('same_object_again', True)
         out['law'] = {'two_sf_thr': 2.0 * float(law.sf(thr)), 'antitone': bool(law.sf(thr * 0.999) >= law.sf(thr) >= law.sf(thr * 1.001)),
                       'sf_inf': float(law.sf(float('inf')))}
     except Exception as exc:  # pylint: disable=broad-except
@@ -311,6 +343,13 @@ def oracle(case, impl, run):
             fails.append(('monotone_err', f'bin {i}: rejected, accepted after an error shrank'))
     law = impl.get('law')
     if law:
+        for di, bi, tval, pval, want in impl.get('bad_p', []):
+            fails.append(('pvalue_is_two_sided_tail', f'dataset {di} bin {bi}: t = {tval!r}, p-value {pval!r}, two-sided tail {want!r}'))
+        if impl.get('edited_same') is False:
+            fails.append(('history_independent', 'datasets edited in place after a first comparison (error of the first compared '
+                          'dataset doubled, reference values + 1) do not compare like new datasets with the same content'))
+        if impl.get('same_object_again') is False:
+            fails.append(('history_independent', 'a second evaluate() on the same test object gives another result'))
         if not law['antitone'] or law['sf_inf'] != 0.0 or abs(law['two_sf_thr'] - case['alpha']) > 1e-9 * case['alpha']:
             fails.append(('law_assumptions', f"scipy law does not satisfy the hypotheses of pvalue_agrees: {law} alpha={case['alpha']}"))
     run.count('verdict=' + str(impl['verdict']))
